@@ -84,6 +84,13 @@ def run_shard(desc, ctx):
         cs = int(10 ** rng.uniform(0, np.log10(n) + 0.3)) + 1
         ov = int(rng.integers(0, cs))
         run_case({'kind': 'chunk_bounds_big', 'n': n, 'chunk': cs, 'overlap': ov}, ctx)
+    # sample axes beyond 2**53 (exact integer arithmetic is needed)
+    for j_, (n_, cs_, ov_) in enumerate([(2 ** 60 + 1, 2 ** 58, 0), (2 ** 53 + 3, 2 ** 51 + 1, 1), (2 ** 62 + 5, 2 ** 59, 2 ** 20 + 1), (2 ** 55, 2 ** 53 + 7, 0)]):
+        if j_ % ns == sh % 4:
+            run_case({'kind': 'chunk_bounds_big', 'n': n_, 'chunk': cs_, 'overlap': ov_}, ctx)
+    # a compressed file with a damaged chunk: the iterator may raise, but it must not silently skip part of the recording
+    if sh in (2, 6):
+        run_case({'kind': 'cbin_damaged', 'n': 100, 'chunk_len': 10, 'damaged': [4, 7][sh == 6], 'threads': 2}, ctx)
     # compressed readers
     ncb = [5, 8, 13] if desc['tier'] == 'quick' else [1, 2, 5, 8, 13, 21, 34]
     for n in ncb:
@@ -144,8 +151,10 @@ def _case_chunk_bounds(case, ctx):
             ctx.violation('malformed', case, 'yielded %r' % (c,))
             return
         s0, s1, k0, k1 = [int(x) for x in c]
-        whole = data_chunk(data, tuple(c), with_overlap=True)
-        k = data_chunk(data, tuple(c))
+        # (the flag as bool, int or NumPy bool, by keyword or position)
+        flag_t, flag_f = [(True, False), (1, 0), (np.True_, np.False_)][(n + cs + ov) % 3]
+        whole = data_chunk(data, tuple(c), with_overlap=flag_t) if ov % 2 else data_chunk(data, tuple(c), flag_t)
+        k = data_chunk(data, tuple(c)) if (n + ov) % 2 else data_chunk(data, tuple(c), with_overlap=flag_f)
         if len(whole) > cs:
             ctx.violation('chunk_too_long', case, 'chunk %r holds %d > %d samples' % (c, len(whole), cs))
         if len(k) and (k[0] < s0 or k[-1] >= s1):
@@ -402,6 +411,36 @@ def _case_empty_reader(case, ctx):
         ri = call(lambda: [(int(a), int(b)) for a, b in rd.iter_chunks()])
         if ri.ok and _tiles(ri.value, 0):
             ctx.violation('iter_chunks_not_tiling', case, 'recording without samples: %s' % ri.value)
+
+
+def _case_cbin_damaged(case, ctx):
+    from phylib.io.traces import get_ephys_reader
+    n, cl = case['n'], case['chunk_len']
+    A = L.unique_cells(n, 3, np.int16)
+    d = scratch_dir('c16_')
+    try:
+        path = L.write_cbin(d, A, 100., cl, n_threads=2)
+        r0 = call(lambda: L.open_cbin(path, 1))
+        if not r0.ok:
+            return
+        offs = [int(x) for x in r0.value.chunk_offsets]
+        r0.value.close()
+        k = case['damaged']
+        with open(path, 'r+b') as f:
+            f.seek(offs[k] + 3)
+            f.write(b'\xff\x00\xff\x00\xff\x00')
+        for cache in (True, False):
+            ctx.count(1, key=hkey('cbd', k, cache), nontrivial=True, cell=('cbin_damaged', 'cache%d' % cache))
+            rr = call(lambda: get_ephys_reader(L.open_cbin(path, case['threads'])))
+            if not rr.ok:
+                continue
+            ri = call(lambda: [(int(a), int(b)) for a, b in rr.value.iter_chunks(cache=cache)])
+            if ri.ok and _tiles(ri.value, n):
+                ctx.violation('iter_chunks_not_tiling', dict(case, cache=cache), 'compressed chunk %d is damaged; the iterator returned normally but %s: %s' % (
+                    k, _tiles(ri.value, n), ri.value), {'damaged_file': True})
+            call(lambda: rr.value.reader.close())
+    finally:
+        shutil.rmtree(d, ignore_errors=True)
 
 
 def _case_cbin_reader(case, ctx):
